@@ -35,7 +35,7 @@ func TestCheck(t *testing.T) {
 		"(ii) one evaluation = one random chain (every length 1..128) with all prefix keys compared between Key/KeysForPrefixes/AllPrefixes/Prefix and a fresh deep copy; distinct = call order x content hash. " +
 		"(iii) one evaluation = one generated value of one of the 17 codec types at a boundary shape; distinct = type|shape|hash(encoding). " +
 		"(iv) one evaluation = one byte string decoded in a child process (truncation, header inflation, seeded mutation, zstd bomb); distinct = type x codec x hash(input), counted in the child.")
-	run.Assume("network names are those the manifest validation admits (':' is generated inside names only while Manifest.Validate accepts it); a collision is a violation only between descriptions differing in exactly one of the items the statement lists (network, instance, round, step, supplemental data, value chain / beacon) - collisions that need two items to change at once (e.g. a ':' moved between network name and beacon) are counted as informational",
+	run.Assume("network names are those the manifest validation admits (':' is generated inside names only while Manifest.Validate accepts it)",
 		"collision search is by single-field perturbation plus byte moves across field boundaries of random bases; it does not search for hash collisions",
 		"value generators cover the boundary shapes listed in DESIGN.md C14; CIDs are at most 100 bytes",
 		"mutation is seeded and structure-aware but not coverage-guided; allocation is measured as runtime.MemStats.TotalAlloc growth across one decode call in a child with RLIMIT_AS=2GiB",
